@@ -7,6 +7,8 @@
 #![allow(dead_code, unused_imports)]
 
 use alloc::sync::Arc;
+use super::api::fresh_handle;
+use super::model::{self, TP};
 use core::fmt;
 use core::mem;
 
@@ -168,6 +170,35 @@ impl<'de, 'a, 'b> Deserializer<'de> for &'b mut Play<'a> {
     }
 }
 
+// The stored pointer kind is the abstract counted pointer TP (model.rs), made serializable here:
+// it serializes as the number of its pool object and deserializes to a new counted handle of that
+// object. (serde's own `impl Serialize for Arc<T>` is not arc-swap's code; what is under contract
+// are the two forwarding impls of src/serde.rs, which are generic in the pointer kind.)
+impl Serialize for TP {
+    fn serialize<S: Serializer>(&self, ser: S) -> Result<S::Ok, S::Error> {
+        ser.serialize_u64(self.obj() as u64)
+    }
+}
+struct TPVisitor;
+impl<'de> Visitor<'de> for TPVisitor {
+    type Value = TP;
+    fn expecting(&self, _: &mut fmt::Formatter) -> fmt::Result {
+        Ok(())
+    }
+    fn visit_u64<E: de::Error>(self, v: u64) -> Result<TP, E> {
+        if (v as usize) < model::POOL {
+            Ok(fresh_handle(v as usize))
+        } else {
+            Err(E::custom("no such object"))
+        }
+    }
+}
+impl<'de> Deserialize<'de> for TP {
+    fn deserialize<D: Deserializer<'de>>(d: D) -> Result<TP, D::Error> {
+        d.deserialize_u64(TPVisitor)
+    }
+}
+
 fn tokens_of<T: Serialize>(v: &T) -> Rec {
     let mut r = Rec::new();
     let res = v.serialize(&mut r);
@@ -175,68 +206,92 @@ fn tokens_of<T: Serialize>(v: &T) -> Rec {
     r
 }
 
-type S = ArcSwapAny<Arc<u64>, HybridStrategy<DefaultConfig>>;
-type SO = ArcSwapAny<Option<Arc<u64>>, HybridStrategy<DefaultConfig>>;
+type S = ArcSwapAny<TP, HybridStrategy<DefaultConfig>>;
+type SO = ArcSwapAny<Option<TP>, HybridStrategy<DefaultConfig>>;
 
-// @harness name=c20_serialize_transparent props=C20 tier=quick flavour=nostd timeout=2400 cfg=feature="serde" fn=ArcSwapAny::serialize
+// @harness name=c20_serialize_transparent props=C20 tier=quick flavour=nostd timeout=1800 cfg=feature="serde" fn=ArcSwapAny::serialize
 #[cfg_attr(kani, kani::proof)]
 #[cfg_attr(kani, kani::stub(crate::debt::Debt::pay_all, crate::debt::verif_h::pay_all_stub))]
+#[cfg_attr(kani, kani::stub(crate::debt::LocalNode::with, crate::debt::verif_h::list_h::with_static))]
+#[cfg_attr(kani, kani::stub(crate::debt::Node::get, crate::debt::verif_h::list_h::node_get_unexpected))]
 #[cfg_attr(kani, kani::unwind(12))]
 pub(crate) fn c20_serialize_transparent() {
-    let x: u64 = nd::any_usize() as u64;
-    let a = Arc::new(x);
-    let s: S = ArcSwapAny::with_strategy(a.clone(), hy::strategy::<DefaultConfig>());
+    crate::debt::verif_h::list_h::setup_thread_node();
+    hy::fresh_ledger();
+    let o = 1usize;
+    let a = TP::adopt(o);
+    let s: S = ArcSwapAny::with_strategy(fresh_handle(o), hy::strategy::<DefaultConfig>());
+    let c0 = model::cnt(o);
     let t_c = tokens_of(&s);
     let t_p = tokens_of(&a);
-    vassert!(t_c.same(&t_p) && t_c.n == 1 && t_c.toks[0] == Tok::U64(x), "container_serializes_as_its_stored_pointer");
-    vassert!(Arc::strong_count(&a) == 2, "serialize_leaves_counts_unchanged");
-    // Option flavour, None and Some
-    let is_some = nd::any_bool();
-    let o: Option<Arc<u64>> = if is_some { Some(a.clone()) } else { None };
-    let so: SO = ArcSwapAny::with_strategy(o.clone(), hy::strategy::<DefaultConfig>());
-    let t_c = tokens_of(&so);
-    let t_p = tokens_of(&o);
-    vassert!(t_c.same(&t_p), "option_container_serializes_as_its_stored_pointer");
-    if is_some {
-        vassert!(t_c.n == 2 && t_c.toks[0] == Tok::Some && t_c.toks[1] == Tok::U64(x), "some_serializes_as_some_value");
-    } else {
-        vassert!(t_c.n == 1 && t_c.toks[0] == Tok::None, "none_serializes_as_none");
-    }
+    vassert!(t_c.same(&t_p) && t_c.n == 1 && t_c.toks[0] == Tok::U64(o as u64), "container_serializes_as_its_stored_pointer");
+    vassert!(model::cnt(o) == c0, "serialize_leaves_counts_unchanged");
     mem::forget(s);
-    mem::forget(so);
+    mem::forget(a);
     vcover!("c20_serialize_transparent_end");
 }
 
-// @harness name=c20_deserialize_roundtrip props=C20 tier=quick flavour=nostd timeout=2400 cfg=feature="serde" fn=ArcSwapAny::deserialize
+// @harness name=c20_serialize_option props=C20 tier=quick flavour=nostd timeout=1800 cfg=feature="serde" fn=ArcSwapAny::serialize
 #[cfg_attr(kani, kani::proof)]
 #[cfg_attr(kani, kani::stub(crate::debt::Debt::pay_all, crate::debt::verif_h::pay_all_stub))]
+#[cfg_attr(kani, kani::stub(crate::debt::LocalNode::with, crate::debt::verif_h::list_h::with_static))]
+#[cfg_attr(kani, kani::stub(crate::debt::Node::get, crate::debt::verif_h::list_h::node_get_unexpected))]
+#[cfg_attr(kani, kani::unwind(12))]
+pub(crate) fn c20_serialize_option() {
+    crate::debt::verif_h::list_h::setup_thread_node();
+    hy::fresh_ledger();
+    let o = 2usize;
+    // Some
+    let so: SO = ArcSwapAny::with_strategy(Some(fresh_handle(o)), hy::strategy::<DefaultConfig>());
+    let t_c = tokens_of(&so);
+    vassert!(t_c.n == 2 && t_c.toks[0] == Tok::Some && t_c.toks[1] == Tok::U64(o as u64), "some_serializes_as_some_value");
+    let p: Option<TP> = Some(TP::adopt(o));
+    vassert!(t_c.same(&tokens_of(&p)), "option_container_serializes_as_its_stored_pointer");
+    mem::forget(p);
+    mem::forget(so);
+    // None
+    let sn: SO = ArcSwapAny::with_strategy(None, hy::strategy::<DefaultConfig>());
+    let t_n = tokens_of(&sn);
+    vassert!(t_n.n == 1 && t_n.toks[0] == Tok::None, "none_serializes_as_none");
+    let n: Option<TP> = None;
+    vassert!(t_n.same(&tokens_of(&n)), "none_container_serializes_as_none_pointer");
+    mem::forget(sn);
+    vcover!("c20_serialize_option_end");
+}
+
+// @harness name=c20_deserialize_roundtrip props=C20 tier=quick flavour=nostd timeout=1800 cfg=feature="serde" fn=ArcSwapAny::deserialize
+#[cfg_attr(kani, kani::proof)]
+#[cfg_attr(kani, kani::stub(crate::debt::Debt::pay_all, crate::debt::verif_h::pay_all_stub))]
+#[cfg_attr(kani, kani::stub(crate::debt::LocalNode::with, crate::debt::verif_h::list_h::with_static))]
+#[cfg_attr(kani, kani::stub(crate::debt::Node::get, crate::debt::verif_h::list_h::node_get_unexpected))]
 #[cfg_attr(kani, kani::unwind(12))]
 pub(crate) fn c20_deserialize_roundtrip() {
-    let x: u64 = nd::any_usize() as u64;
-    let toks = [Tok::U64(x), Tok::Other, Tok::Other, Tok::Other];
+    crate::debt::verif_h::list_h::setup_thread_node();
+    hy::fresh_ledger();
+    let o = 1usize;
+    let c0 = model::cnt(o);
+    let toks = [Tok::U64(o as u64), Tok::Other, Tok::Other, Tok::Other];
     let mut p = Play { toks: &toks, pos: 0 };
     let s: Result<S, SErr> = S::deserialize(&mut p);
     vassert!(s.is_ok(), "deserialize_succeeds");
     let s = s.unwrap();
+    vassert!(model::cnt(o) == c0 + 1, "deserialized_value_has_a_single_reference_in_the_container");
     let v = s.load_full();
-    vassert!(*v == x, "deserialized_container_holds_the_deserialized_value");
-    vassert!(Arc::strong_count(&v) == 2, "deserialized_value_has_a_single_reference_in_the_container");
+    vassert!(v.0 == model::addr(o), "deserialized_container_holds_the_deserialized_value");
+    drop(v);
     // round trip
     let t = tokens_of(&s);
-    vassert!(t.n == 1 && t.toks[0] == Tok::U64(x), "round_trip_preserves_the_value");
-    // Option flavour
-    let is_some = nd::any_bool();
-    let toks2 = if is_some { [Tok::Some, Tok::U64(x), Tok::Other, Tok::Other] } else { [Tok::None, Tok::Other, Tok::Other, Tok::Other] };
+    vassert!(t.n == 1 && t.toks[0] == Tok::U64(o as u64), "round_trip_preserves_the_value");
+    let back = s.into_inner();
+    vassert!(model::cnt(o) == c0 + 1, "into_inner_of_deserialized_container_is_the_only_reference");
+    mem::forget(back);
+    // Option flavour: None
+    let toks2 = [Tok::None, Tok::Other, Tok::Other, Tok::Other];
     let mut p2 = Play { toks: &toks2, pos: 0 };
     let so: Result<SO, SErr> = SO::deserialize(&mut p2);
     vassert!(so.is_ok(), "option_deserialize_succeeds");
     let so = so.unwrap();
-    let v2 = so.load_full();
-    vassert!(v2.is_some() == is_some, "option_deserialize_preserves_emptiness");
-    if let Some(inner) = &v2 {
-        vassert!(**inner == x && Arc::strong_count(inner) == 2, "option_deserialized_value_and_single_reference");
-    }
-    mem::forget(s);
+    vassert!(so.load_full().is_none(), "option_deserialize_preserves_emptiness");
     mem::forget(so);
     vcover!("c20_deserialize_roundtrip_end");
 }
